@@ -309,6 +309,36 @@ def reuse_workload(ctx):
                     diff = {kk: (got.get(kk), want.get(kk)) for kk in set(got) | set(want) if got.get(kk) != want.get(kk)}
                     res.violation("reused-object-result-differs-from-fresh", case, {kk: (str(a)[:300], str(b)[:300]) for kk, (a, b) in diff.items()}, None)
             mix.add(("fail" if "parse_exc" in got else "ok") + ("+v" if version else ""))
+            # the SAME dictionary object validated again after an edit (validate, fix or break something, validate again): the answer
+            # is about the dictionary as it is now
+            if "parse_exc" not in got and k % 3 == 0:
+                try:
+                    dd = m.transform(p.parse(text))
+                    held = dd[0] if isinstance(dd, list) else dd
+                except Exception:
+                    held = None
+                if isinstance(held, dict) and held.get("__type__") in vocab.object_types():
+                    tname = held["__type__"]
+
+                    def fpv(msgs):
+                        return core.fp(sorted((x.get("message"), x.get("error")) for x in msgs))
+                    try:
+                        for edit in ("as-loaded", "break", "break-more", "repair"):
+                            if edit == "break":
+                                held["status"] = "certainly not a status"
+                            elif edit == "break-more":
+                                held["zzunknown"] = 1
+                            elif edit == "repair":
+                                held.pop("status", None)
+                                held.pop("zzunknown", None)
+                            a = fpv(v.validate(held, schema_name=tname, version=version))
+                            b = fpv(Validator().validate(copy.deepcopy(held), schema_name=tname, version=version))
+                            res.count("same_object_revalidations")
+                            if a != b:
+                                res.violation("reused-validator-answers-about-an-earlier-state-of-the-dictionary", dict(case, edit=edit), a[:300], b[:300])
+                                break
+                    except Exception as ex:
+                        res.violation("revalidation-raises", case, f"{type(ex).__name__}: {str(ex)[:200]}", None)
             # quiescent point: the parser's comment buffer holds only comments of the current text
             if comments and "parse_exc" not in got:
                 res.count("quiescent_state_checks")
